@@ -54,408 +54,3 @@ pub fn verif_hashset_into_iter<K>(s: FxHashSet<K>) -> (r: std::collections::hash
 { s.into_iter() }
 
 // ---------------------------------------------------------------- the epsilon-elimination automaton of one NFA
-#[verifier::opaque]
-pub open spec fn same_closure(n: Nfa, a: int, b: int) -> bool { forall|x: int| #[trigger] eps_reach(n, a, x) <==> eps_reach(n, b, x) }
-/// the set k is the epsilon closure of NFA state a
-pub open spec fn key_is(n: Nfa, k: Set<StateID>, a: int) -> bool { forall|x: StateID| #[trigger] k.contains(x) <==> eps_reach(n, a, x.0 as int) }
-/// some member of closure(a) has the transition (cc, t)
-#[verifier::opaque]
-pub open spec fn fires(n: Nfa, a: int, cc: CharClassID, t: StateID) -> bool { exists|s: int| eps_reach(n, a, s) && #[trigger] tr_of(n, s, cc, t) }
-/// automaton state `to` stands for the closure of the target of a transition (cc, t) fired from automaton state f
-pub open spec fn elim_edge(n: Nfa, reps: Seq<StateID>, f: int, cc: CharClassID, to: StateSetID) -> bool {
-    0 <= f < reps.len() && to.0 < reps.len()
-        && exists|t: StateID| #[trigger] fires(n, reps[f].0 as int, cc, t) && same_closure(n, t.0 as int, reps[to.0 as int].0 as int)
-}
-/// reps[i]: an NFA state whose closure automaton state i stands for; distinct automaton states stand for distinct closures
-pub open spec fn reps_ok(n: Nfa, reps: Seq<StateID>) -> bool {
-    &&& reps.len() >= 1 && reps[0] == n.start_state
-    &&& forall|i: int| 0 <= i < reps.len() ==> has_state(n, (#[trigger] reps[i]).0 as int)
-    &&& reps_distinct(n, reps)
-}
-#[verifier::opaque]
-pub open spec fn reps_distinct(n: Nfa, reps: Seq<StateID>) -> bool {
-    forall|i: int, j: int| 0 <= i < j < reps.len() ==> !same_closure(n, (#[trigger] reps[i]).0 as int, (#[trigger] reps[j]).0 as int)
-}
-pub type SMap = Map<BTreeSet<StateID>, StateSetID>;
-pub type Edge = (StateSetID, CharClassID, StateSetID);
-pub open spec fn map_ok(n: Nfa, m: SMap, reps: Seq<StateID>) -> bool {
-    &&& m.len() == reps.len()
-    &&& forall|k: BTreeSet<StateID>| #[trigger] m.contains_key(k) ==> m[k].0 < reps.len() && key_is(n, k@, reps[m[k].0 as int].0 as int)
-    &&& forall|i: int| 0 <= i < reps.len() ==> has_key_for(m, i)
-}
-pub open spec fn has_key_for(m: SMap, i: int) -> bool { exists|k: BTreeSet<StateID>| #[trigger] m.contains_key(k) && m[k].0 == i }
-/// the queue holds the ids lo, lo+1, .., hi-1 in this order
-pub open spec fn queue_ok(q: Seq<StateSetID>, lo: int, hi: int) -> bool {
-    q.len() == hi - lo && forall|i: int| 0 <= i < q.len() ==> (#[trigger] q[i]).0 == lo + i
-}
-#[verifier::opaque]
-pub open spec fn trans_sound(n: Nfa, t: Set<Edge>, reps: Seq<StateID>, lim: int) -> bool {
-    forall|e: Edge| #[trigger] t.contains(e) ==> e.0.0 < lim && elim_edge(n, reps, e.0.0 as int, e.1, e.2)
-}
-pub open spec fn edge_present(n: Nfa, t: Set<Edge>, reps: Seq<StateID>, f: int, cc: CharClassID, tg: StateID) -> bool {
-    exists|to: StateSetID| to.0 < reps.len() && same_closure(n, tg.0 as int, reps[to.0 as int].0 as int) && #[trigger] t.contains((StateSetID(f as u32), cc, to))
-}
-#[verifier::opaque]
-pub open spec fn trans_complete(n: Nfa, t: Set<Edge>, reps: Seq<StateID>, p: int) -> bool {
-    forall|f: int, cc: CharClassID, tg: StateID| 0 <= f < p && f < reps.len() && #[trigger] fires(n, reps[f].0 as int, cc, tg) ==> edge_present(n, t, reps, f, cc, tg)
-}
-pub open spec fn entered(t: Set<Edge>, to: StateSetID) -> bool { exists|f: StateSetID, cc: CharClassID| #[trigger] t.contains((f, cc, to)) }
-#[verifier::opaque]
-pub open spec fn acc_ok(n: Nfa, acc: Seq<(StateSetID, usize)>, t: Set<Edge>, reps: Seq<StateID>) -> bool {
-    let tt = n.pattern.token_type;
-    let end = n.end_state.0 as int;
-    &&& acc.no_duplicates()
-    &&& forall|i: int| 0 <= i < acc.len() ==> (#[trigger] acc[i]).1 == tt && acc[i].0.0 < reps.len() && eps_reach(n, reps[acc[i].0.0 as int].0 as int, end) && entered(t, acc[i].0)
-    &&& forall|e: Edge| #[trigger] t.contains(e) && e.2.0 < reps.len() && eps_reach(n, reps[e.2.0 as int].0 as int, end) ==> acc.contains((e.2, tt))
-}
-
-/// what the worklist construction must hand to the minimizer
-pub open spec fn elim_acc(n: Nfa, d: CompiledDfa, reps: Seq<StateID>, i: int) -> bool {
-    eps_reach(n, reps[i].0 as int, n.end_state.0 as int)
-        && exists|f: int, cc: CharClassID| 0 <= f < reps.len() && #[trigger] d.states@[f].transitions@.contains((cc, StateSetID(i as u32)))
-}
-pub open spec fn elim_ok(n: Nfa, d: CompiledDfa, reps: Seq<StateID>) -> bool {
-    let tt = TerminalID(n.pattern.token_type as u32);
-    &&& reps_ok(n, reps) && reps.len() <= u32::MAX
-    &&& d.states@.len() == reps.len() && d.end_states@.len() == reps.len()
-    &&& forall|f: int, cc: CharClassID, to: StateSetID| 0 <= f < reps.len() ==> (#[trigger] d.states@[f].transitions@.contains((cc, to)) <==> elim_edge(n, reps, f, cc, to))
-    &&& forall|f: int| 0 <= f < reps.len() ==> (#[trigger] d.states@[f]).transitions@.no_duplicates()
-    // the start state is never marked on its own account: the empty string is not accepted
-    &&& forall|i: int| 0 <= i < reps.len() ==> #[trigger] d.end_states@[i] == (if elim_acc(n, d, reps, i) { (true, tt) } else { (false, TerminalID(0)) })
-    &&& d.terminal_ids@ == seq![tt]
-    &&& d.lookaheads@.len() == 0
-}
-
-// ---- lemmas
-pub proof fn lemma_same_closure_refl(n: Nfa, a: int) ensures same_closure(n, a, a) { reveal(same_closure); }
-pub proof fn lemma_same_closure_trans(n: Nfa, a: int, b: int, c: int)
-    requires same_closure(n, a, b), same_closure(n, a, c)
-    ensures same_closure(n, b, c), same_closure(n, c, b)
-{
-    reveal(same_closure);
-    assert forall|x: int| #[trigger] eps_reach(n, b, x) <==> eps_reach(n, c, x) by { assert(eps_reach(n, a, x) <==> eps_reach(n, b, x)); assert(eps_reach(n, a, x) <==> eps_reach(n, c, x)); }
-}
-pub proof fn lemma_key_same(n: Nfa, k: Set<StateID>, a: int, b: int)
-    requires key_is(n, k, a), key_is(n, k, b), sub_wf(n), has_state(n, a), has_state(n, b)
-    ensures same_closure(n, a, b)
-{
-    reveal(same_closure);
-    assert forall|x: int| #[trigger] eps_reach(n, a, x) <==> eps_reach(n, b, x) by {
-        if eps_reach(n, a, x) { let kk = choose|kk: nat| eps_path(n, a, x, kk); lemma_reach_has_state(n, a, x, kk); assert(k.contains(StateID(x as u32))); }
-        if eps_reach(n, b, x) { let kk = choose|kk: nat| eps_path(n, b, x, kk); lemma_reach_has_state(n, b, x, kk); assert(k.contains(StateID(x as u32))); }
-    }
-}
-pub proof fn lemma_keys_equal(n: Nfa, k1: Set<StateID>, k2: Set<StateID>, a: int, b: int)
-    requires key_is(n, k1, a), key_is(n, k2, b), same_closure(n, a, b)
-    ensures k1 == k2
-{
-    reveal(same_closure);
-    assert forall|x: StateID| k1.contains(x) <==> k2.contains(x) by {
-        assert(eps_reach(n, a, x.0 as int) <==> eps_reach(n, b, x.0 as int));
-    }
-    assert(k1 =~= k2);
-}
-pub proof fn lemma_reps_nodup(n: Nfa, reps: Seq<StateID>)
-    requires reps_ok(n, reps), sub_wf(n), n_off(n) == 0
-    ensures reps.no_duplicates(), reps.len() <= n_len(n)
-{
-    reveal(reps_distinct);
-    assert forall|i: int, j: int| 0 <= i < reps.len() && 0 <= j < reps.len() && i != j implies reps[i] != reps[j] by {
-        if reps[i] == reps[j] { lemma_same_closure_refl(n, reps[i].0 as int); if i < j { assert(!same_closure(n, reps[i].0 as int, reps[j].0 as int)); } else { assert(!same_closure(n, reps[j].0 as int, reps[i].0 as int)); } }
-    }
-    lemma_nodup_bounded(reps, 0, n_len(n));
-}
-/// the index-addressed match transitions of the members of a closure key are what the closure fires
-pub proof fn lemma_mt_fires(n: Nfa, ss: Seq<StateID>, key: Set<StateID>, a: int)
-    requires sub_wf(n), n_off(n) == 0, has_state(n, a), key_is(n, key, a), forall|x: StateID| #[trigger] key.contains(x) <==> ss.contains(x)
-    ensures forall|cc: CharClassID, t: StateID| #[trigger] mt_from(n, ss, cc, t) <==> fires(n, a, cc, t)
-{
-    reveal(fires);
-    assert forall|cc: CharClassID, t: StateID| #[trigger] mt_from(n, ss, cc, t) <==> fires(n, a, cc, t) by {
-        if mt_from(n, ss, cc, t) {
-            let (i, k) = choose|i: int, k: int| #[trigger] mt_at(n, ss, i, k, cc, t);
-            assert(ss.contains(ss[i]));
-            assert(key.contains(ss[i]));
-            assert(tr_at(n, ss[i].0 as int, k, cc, t));
-            assert(tr_of(n, ss[i].0 as int, cc, t));
-        }
-        if fires(n, a, cc, t) {
-            let s = choose|s: int| eps_reach(n, a, s) && #[trigger] tr_of(n, s, cc, t);
-            let k = choose|k: int| #[trigger] tr_at(n, s, k, cc, t);
-            assert(key.contains(StateID(s as u32)));
-            assert(ss.contains(StateID(s as u32)));
-            let i = choose|i: int| 0 <= i < ss.len() && ss[i] == StateID(s as u32);
-            assert(mt_at(n, ss, i, k, cc, t));
-        }
-    }
-}
-/// a fired transition's target is a state of the NFA
-pub proof fn lemma_fires_target(n: Nfa, a: int, cc: CharClassID, t: StateID)
-    requires sub_wf(n), fires(n, a, cc, t)
-    ensures has_state(n, t.0 as int)
-{
-    reveal(fires);
-    let s = choose|s: int| eps_reach(n, a, s) && #[trigger] tr_of(n, s, cc, t);
-    let k = choose|k: int| #[trigger] tr_at(n, s, k, cc, t);
-    assert(has_state(n, n.states@[s - n_off(n)].transitions@[k].target_state.0 as int));
-}
-
-pub proof fn lemma_step_found(n: Nfa, m: SMap, reps: Seq<StateID>, k: BTreeSet<StateID>, t: StateID)
-    requires sub_wf(n), reps_ok(n, reps), map_ok(n, m, reps), m.contains_key(k), key_is(n, k@, t.0 as int), has_state(n, t.0 as int)
-    ensures m[k].0 < reps.len(), same_closure(n, t.0 as int, reps[m[k].0 as int].0 as int)
-{
-    lemma_key_same(n, k@, t.0 as int, reps[m[k].0 as int].0 as int);
-}
-
-pub proof fn lemma_step_fresh(n: Nfa, m: SMap, reps: Seq<StateID>, k: BTreeSet<StateID>, t: StateID)
-    requires sub_wf(n), n_off(n) == 0, reps_ok(n, reps), map_ok(n, m, reps), !m.contains_key(k), key_is(n, k@, t.0 as int), has_state(n, t.0 as int)
-    ensures
-        reps.len() < u32::MAX, reps.len() < n_len(n),
-        reps_ok(n, reps.push(t)),
-        map_ok(n, m.insert(k, StateSetID(reps.len() as u32)), reps.push(t)),
-        same_closure(n, t.0 as int, reps.push(t)[reps.len() as int].0 as int),
-{
-    reveal(reps_distinct);
-    let r2 = reps.push(t);
-    let v = StateSetID(reps.len() as u32);
-    let m2 = m.insert(k, v);
-    lemma_same_closure_refl(n, t.0 as int);
-    assert forall|i: int| 0 <= i < reps.len() implies !same_closure(n, (#[trigger] reps[i]).0 as int, t.0 as int) by {
-        if same_closure(n, reps[i].0 as int, t.0 as int) {
-            assert(has_key_for(m, i));
-            let ki = choose|ki: BTreeSet<StateID>| #[trigger] m.contains_key(ki) && m[ki].0 == i;
-            lemma_keys_equal(n, ki@, k@, reps[i].0 as int, t.0 as int);
-            axiom_set_key_ext(ki, k);
-        }
-    }
-    assert(reps_ok(n, r2)) by {
-        assert forall|i: int, j: int| 0 <= i < j < r2.len() implies !same_closure(n, (#[trigger] r2[i]).0 as int, (#[trigger] r2[j]).0 as int) by {
-            if j < reps.len() { assert(r2[i] == reps[i] && r2[j] == reps[j]); } else { assert(r2[i] == reps[i]); }
-        }
-    }
-    lemma_reps_nodup(n, r2);
-    assert(map_ok(n, m2, r2)) by {
-        assert(m2.len() == m.len() + 1);
-        assert forall|kk: BTreeSet<StateID>| #[trigger] m2.contains_key(kk) implies m2[kk].0 < r2.len() && key_is(n, kk@, r2[m2[kk].0 as int].0 as int) by {
-            if kk != k { assert(m.contains_key(kk)); assert(r2[m[kk].0 as int] == reps[m[kk].0 as int]); }
-        }
-        assert forall|i: int| 0 <= i < r2.len() implies has_key_for(m2, i) by {
-            if i < reps.len() {
-                assert(has_key_for(m, i));
-                let ki = choose|ki: BTreeSet<StateID>| #[trigger] m.contains_key(ki) && m[ki].0 == i;
-                assert(m2.contains_key(ki) && m2[ki].0 == i);
-            } else { assert(m2.contains_key(k) && m2[k].0 == i); }
-        }
-    }
-}
-
-pub proof fn lemma_push_mono(n: Nfa, t: Set<Edge>, acc: Seq<(StateSetID, usize)>, reps: Seq<StateID>, x: StateID, lim: int, p: int)
-    requires trans_sound(n, t, reps, lim), trans_complete(n, t, reps, p), acc_ok(n, acc, t, reps), p <= reps.len()
-    ensures
-        trans_sound(n, t, reps.push(x), lim), trans_complete(n, t, reps.push(x), p), acc_ok(n, acc, t, reps.push(x)),
-        forall|f: int, cc: CharClassID, tg: StateID| #[trigger] edge_present(n, t, reps, f, cc, tg) ==> edge_present(n, t, reps.push(x), f, cc, tg),
-{
-    reveal(trans_sound);
-    reveal(trans_complete);
-    reveal(acc_ok);
-    let r2 = reps.push(x);
-    assert forall|f: int, cc: CharClassID, to: StateSetID| #[trigger] elim_edge(n, reps, f, cc, to) implies elim_edge(n, r2, f, cc, to) by {
-        let tg = choose|tg: StateID| #[trigger] fires(n, reps[f].0 as int, cc, tg) && same_closure(n, tg.0 as int, reps[to.0 as int].0 as int);
-        assert(r2[f] == reps[f] && r2[to.0 as int] == reps[to.0 as int]);
-        assert(fires(n, r2[f].0 as int, cc, tg) && same_closure(n, tg.0 as int, r2[to.0 as int].0 as int));
-    }
-    assert forall|f: int, cc: CharClassID, tg: StateID| #[trigger] edge_present(n, t, reps, f, cc, tg) implies edge_present(n, t, r2, f, cc, tg) by {
-        let to = choose|to: StateSetID| to.0 < reps.len() && same_closure(n, tg.0 as int, reps[to.0 as int].0 as int) && #[trigger] t.contains((StateSetID(f as u32), cc, to));
-        assert(r2[to.0 as int] == reps[to.0 as int]);
-    }
-    assert forall|f: int, cc: CharClassID, tg: StateID| 0 <= f < p && f < r2.len() && #[trigger] fires(n, r2[f].0 as int, cc, tg) implies edge_present(n, t, r2, f, cc, tg) by {
-        if f < reps.len() { assert(r2[f] == reps[f]); assert(edge_present(n, t, reps, f, cc, tg)); }
-    }
-    assert(acc_ok(n, acc, t, r2)) by {
-        assert forall|i: int| 0 <= i < acc.len() implies (#[trigger] acc[i]).1 == n.pattern.token_type && acc[i].0.0 < r2.len()
-            && eps_reach(n, r2[acc[i].0.0 as int].0 as int, n.end_state.0 as int) && entered(t, acc[i].0) by {
-            assert(r2[acc[i].0.0 as int] == reps[acc[i].0.0 as int]);
-        }
-        assert forall|e: Edge| #[trigger] t.contains(e) && e.2.0 < r2.len() && eps_reach(n, r2[e.2.0 as int].0 as int, n.end_state.0 as int)
-            implies acc.contains((e.2, n.pattern.token_type)) by {
-            assert(elim_edge(n, reps, e.0.0 as int, e.1, e.2));
-            assert(r2[e.2.0 as int] == reps[e.2.0 as int]);
-        }
-    }
-}
-
-pub proof fn lemma_insert_edge(n: Nfa, t: Set<Edge>, reps: Seq<StateID>, c: int, cc: CharClassID, tg: StateID, id: StateSetID, p: int)
-    requires
-        trans_sound(n, t, reps, c + 1), trans_complete(n, t, reps, p), 0 <= c < reps.len(), reps.len() <= u32::MAX, id.0 < reps.len(),
-        fires(n, reps[c].0 as int, cc, tg), same_closure(n, tg.0 as int, reps[id.0 as int].0 as int),
-    ensures
-        trans_sound(n, t.insert((StateSetID(c as u32), cc, id)), reps, c + 1),
-        trans_complete(n, t.insert((StateSetID(c as u32), cc, id)), reps, p),
-        edge_present(n, t.insert((StateSetID(c as u32), cc, id)), reps, c, cc, tg),
-        forall|f: int, cc2: CharClassID, tg2: StateID| #[trigger] edge_present(n, t, reps, f, cc2, tg2) ==> edge_present(n, t.insert((StateSetID(c as u32), cc, id)), reps, f, cc2, tg2),
-{
-    reveal(trans_sound);
-    reveal(trans_complete);
-    let e0 = (StateSetID(c as u32), cc, id);
-    let t2 = t.insert(e0);
-    assert(elim_edge(n, reps, c, cc, id));
-    assert forall|f: int, cc2: CharClassID, tg2: StateID| #[trigger] edge_present(n, t, reps, f, cc2, tg2) implies edge_present(n, t2, reps, f, cc2, tg2) by {
-        let to = choose|to: StateSetID| to.0 < reps.len() && same_closure(n, tg2.0 as int, reps[to.0 as int].0 as int) && #[trigger] t.contains((StateSetID(f as u32), cc2, to));
-        assert(t2.contains((StateSetID(f as u32), cc2, to)));
-    }
-    assert(t2.contains(e0));
-    assert(edge_present(n, t2, reps, c, cc, tg));
-    assert forall|f: int, cc2: CharClassID, tg2: StateID| 0 <= f < p && f < reps.len() && #[trigger] fires(n, reps[f].0 as int, cc2, tg2) implies edge_present(n, t2, reps, f, cc2, tg2) by {
-        assert(edge_present(n, t, reps, f, cc2, tg2));
-    }
-}
-
-/// the accepting list after one inner step: the entry for `id` is added exactly when its closure holds the end state and it is not listed yet
-pub proof fn lemma_acc_step(n: Nfa, acc0: Seq<(StateSetID, usize)>, acc1: Seq<(StateSetID, usize)>, t: Set<Edge>, reps: Seq<StateID>, e0: Edge)
-    requires
-        acc_ok(n, acc0, t, reps), e0.2.0 < reps.len(),
-        acc1 == (if eps_reach(n, reps[e0.2.0 as int].0 as int, n.end_state.0 as int) && !acc0.contains((e0.2, n.pattern.token_type)) { acc0.push((e0.2, n.pattern.token_type)) } else { acc0 }),
-    ensures acc_ok(n, acc1, t.insert(e0), reps)
-{
-    reveal(acc_ok);
-    let tt = n.pattern.token_type;
-    let end = n.end_state.0 as int;
-    let t2 = t.insert(e0);
-    let newe = (e0.2, tt);
-    assert forall|to: StateSetID| #[trigger] entered(t, to) implies entered(t2, to) by {
-        let (f, cc) = choose|f: StateSetID, cc: CharClassID| #[trigger] t.contains((f, cc, to));
-        assert(t2.contains((f, cc, to)));
-    }
-    assert(t2.contains((e0.0, e0.1, e0.2)));
-    assert(entered(t2, e0.2));
-    if acc1 != acc0 {
-        assert(acc1.no_duplicates()) by {
-            assert forall|i: int, j: int| 0 <= i < acc1.len() && 0 <= j < acc1.len() && i != j implies acc1[i] != acc1[j] by {
-                if i < acc0.len() && j < acc0.len() { assert(acc0[i] != acc0[j]); }
-                else if i < acc0.len() { assert(acc0.contains(acc0[i])); }
-                else if j < acc0.len() { assert(acc0.contains(acc0[j])); }
-            }
-        }
-        assert forall|i: int| 0 <= i < acc1.len() implies (#[trigger] acc1[i]).1 == tt && acc1[i].0.0 < reps.len()
-            && eps_reach(n, reps[acc1[i].0.0 as int].0 as int, end) && entered(t2, acc1[i].0) by {
-            if i < acc0.len() { assert(acc1[i] == acc0[i]); assert(entered(t, acc0[i].0)); }
-        }
-    } else {
-        assert forall|i: int| 0 <= i < acc1.len() implies (#[trigger] acc1[i]).1 == tt && acc1[i].0.0 < reps.len()
-            && eps_reach(n, reps[acc1[i].0.0 as int].0 as int, end) && entered(t2, acc1[i].0) by {
-            assert(entered(t, acc0[i].0));
-        }
-    }
-    assert forall|e: Edge| #[trigger] t2.contains(e) && e.2.0 < reps.len() && eps_reach(n, reps[e.2.0 as int].0 as int, end) implies acc1.contains((e.2, tt)) by {
-        if e == e0 {
-            if acc1 != acc0 { assert(acc1[acc0.len() as int] == newe); }
-        } else {
-            assert(t.contains(e));
-            assert(acc0.contains((e.2, tt)));
-            let i = choose|i: int| 0 <= i < acc0.len() && acc0[i] == (e.2, tt);
-            assert(acc1[i] == (e.2, tt));
-        }
-    }
-}
-
-/// the vectors built from the final worklist state form the epsilon-elimination automaton
-pub proof fn lemma_elim_final(n: Nfa, d: CompiledDfa, reps: Seq<StateID>, t: Set<Edge>, acc: Seq<(StateSetID, usize)>)
-    requires
-        sub_wf(n), n_off(n) == 0, reps_ok(n, reps), reps.len() <= n_len(n),
-        trans_sound(n, t, reps, reps.len() as int), trans_complete(n, t, reps, reps.len() as int), acc_ok(n, acc, t, reps),
-        d.states@.len() == reps.len(), d.end_states@.len() == reps.len(),
-        forall|f: int, cc: CharClassID, to: StateSetID| 0 <= f < reps.len() ==> (#[trigger] d.states@[f].transitions@.contains((cc, to)) <==> t.contains((StateSetID(f as u32), cc, to))),
-        forall|f: int| 0 <= f < reps.len() ==> (#[trigger] d.states@[f]).transitions@.no_duplicates(),
-        forall|i: int| 0 <= i < reps.len() ==> #[trigger] d.end_states@[i] ==
-            (if exists|ix: int| 0 <= ix < acc.len() && (#[trigger] acc[ix]).0.0 == i { (true, TerminalID(n.pattern.token_type as u32)) } else { (false, TerminalID(0)) }),
-        d.terminal_ids@ == seq![TerminalID(n.pattern.token_type as u32)],
-        d.lookaheads@.len() == 0,
-    ensures elim_ok(n, d, reps)
-{
-    reveal(trans_sound);
-    reveal(trans_complete);
-    reveal(acc_ok);
-    reveal(reps_distinct);
-    let tt = n.pattern.token_type;
-    let end = n.end_state.0 as int;
-    assert forall|f: int, cc: CharClassID, to: StateSetID| 0 <= f < reps.len() implies (#[trigger] d.states@[f].transitions@.contains((cc, to)) <==> elim_edge(n, reps, f, cc, to)) by {
-        if t.contains((StateSetID(f as u32), cc, to)) { assert(elim_edge(n, reps, f, cc, to)); }
-        if elim_edge(n, reps, f, cc, to) {
-            let tg = choose|tg: StateID| #[trigger] fires(n, reps[f].0 as int, cc, tg) && same_closure(n, tg.0 as int, reps[to.0 as int].0 as int);
-            assert(edge_present(n, t, reps, f, cc, tg));
-            let to2 = choose|to2: StateSetID| to2.0 < reps.len() && same_closure(n, tg.0 as int, reps[to2.0 as int].0 as int) && #[trigger] t.contains((StateSetID(f as u32), cc, to2));
-            lemma_same_closure_trans(n, tg.0 as int, reps[to.0 as int].0 as int, reps[to2.0 as int].0 as int);
-            if to.0 < to2.0 { assert(!same_closure(n, reps[to.0 as int].0 as int, reps[to2.0 as int].0 as int)); }
-            if to2.0 < to.0 { assert(!same_closure(n, reps[to2.0 as int].0 as int, reps[to.0 as int].0 as int)); }
-            assert(to == to2);
-        }
-    }
-    assert forall|i: int| 0 <= i < reps.len() implies ((exists|ix: int| 0 <= ix < acc.len() && (#[trigger] acc[ix]).0.0 == i) <==> elim_acc(n, d, reps, i)) by {
-        if exists|ix: int| 0 <= ix < acc.len() && (#[trigger] acc[ix]).0.0 == i {
-            let ix = choose|ix: int| 0 <= ix < acc.len() && (#[trigger] acc[ix]).0.0 == i;
-            assert(entered(t, acc[ix].0));
-            let (f, cc) = choose|f: StateSetID, cc: CharClassID| #[trigger] t.contains((f, cc, acc[ix].0));
-            assert(f.0 < reps.len());
-            assert(StateSetID(f.0 as int as u32) == f);
-            assert(acc[ix].0 == StateSetID(i as u32));
-            assert(d.states@[f.0 as int].transitions@.contains((cc, StateSetID(i as u32))));
-        }
-        if elim_acc(n, d, reps, i) {
-            let (f, cc) = choose|f: int, cc: CharClassID| 0 <= f < reps.len() && #[trigger] d.states@[f].transitions@.contains((cc, StateSetID(i as u32)));
-            let e = (StateSetID(f as u32), cc, StateSetID(i as u32));
-            assert(t.contains(e));
-            assert(acc.contains((e.2, tt)));
-            let ix = choose|ix: int| 0 <= ix < acc.len() && acc[ix] == (e.2, tt);
-            assert(acc[ix].0.0 == i);
-        }
-    }
-}
-
-/// membership of the end state in a closure key is a property of the closure
-pub proof fn lemma_same_closure_reach(n: Nfa, a: int, b: int, x: int)
-    requires same_closure(n, a, b)
-    ensures eps_reach(n, a, x) <==> eps_reach(n, b, x)
-{
-    reveal(same_closure);
-}
-
-pub proof fn lemma_worklist_init(n: Nfa, reps: Seq<StateID>)
-    ensures trans_sound(n, Set::<Edge>::empty(), reps, 0), trans_complete(n, Set::<Edge>::empty(), reps, 0), acc_ok(n, Seq::<(StateSetID, usize)>::empty(), Set::<Edge>::empty(), reps)
-{
-    reveal(trans_sound); reveal(trans_complete); reveal(acc_ok);
-}
-pub proof fn lemma_ts_use(n: Nfa, t: Set<Edge>, reps: Seq<StateID>, lim: int, e: Edge)
-    requires trans_sound(n, t, reps, lim), t.contains(e)
-    ensures e.0.0 < lim, e.2.0 < reps.len(), 0 <= e.0.0 < reps.len()
-{
-    reveal(trans_sound);
-}
-pub proof fn lemma_ts_weaken(n: Nfa, t: Set<Edge>, reps: Seq<StateID>, lim: int, lim2: int)
-    requires trans_sound(n, t, reps, lim), lim <= lim2
-    ensures trans_sound(n, t, reps, lim2)
-{
-    reveal(trans_sound);
-}
-pub proof fn lemma_acc_use(n: Nfa, acc: Seq<(StateSetID, usize)>, t: Set<Edge>, reps: Seq<StateID>, i: int)
-    requires acc_ok(n, acc, t, reps), 0 <= i < acc.len()
-    ensures acc[i].1 == n.pattern.token_type, acc[i].0.0 < reps.len()
-{
-    reveal(acc_ok);
-}
-/// all transitions fired by automaton state c have been entered: c is complete
-pub proof fn lemma_complete_step(n: Nfa, t: Set<Edge>, reps: Seq<StateID>, c: int, ts: Seq<(CharClassID, StateID)>)
-    requires
-        trans_complete(n, t, reps, c), 0 <= c < reps.len(),
-        forall|cc: CharClassID, tg: StateID| #[trigger] ts.contains((cc, tg)) <==> fires(n, reps[c].0 as int, cc, tg),
-        forall|kk: int| 0 <= kk < ts.len() ==> edge_present(n, t, reps, c, (#[trigger] ts[kk]).0, ts[kk].1),
-    ensures trans_complete(n, t, reps, c + 1)
-{
-    reveal(trans_complete);
-    assert forall|f: int, cc: CharClassID, tg: StateID| 0 <= f < c + 1 && f < reps.len() && #[trigger] fires(n, reps[f].0 as int, cc, tg) implies edge_present(n, t, reps, f, cc, tg) by {
-        if f == c {
-            assert(ts.contains((cc, tg)));
-            let kk = choose|kk: int| 0 <= kk < ts.len() && ts[kk] == (cc, tg);
-            assert(edge_present(n, t, reps, c, ts[kk].0, ts[kk].1));
-        }
-    }
-}
